@@ -435,6 +435,9 @@ struct Interp<'a> {
     depth: usize,
     /// carry on after an error item whose driver call was made (driver fault, virtual signal)
     cont: bool,
+    /// a row whose entries cannot be evaluated is replaced by an error item and the run goes on
+    /// with the next statement (what a caller sees who carries on after such an item)
+    cont_rows: bool,
     bound_evals: Vec<(usize, i64)>,
 }
 
@@ -695,11 +698,19 @@ impl<'a> Interp<'a> {
                 Entry::Z => vals.push(EV::Z),
                 Entry::C => vals.push(EV::C),
                 Entry::Paren(x) => {
-                    let v = self.ev(x)?;
+                    let v = match self.ev(x) {
+                        Ok(v) => v,
+                        Err(Stop::Err) if self.cont_rows => return Ok(()),
+                        Err(e) => return Err(e),
+                    };
                     vals.push(EV::Num(v));
                 }
                 Entry::Bits(k, x) => {
-                    let v = self.ev(x)?;
+                    let v = match self.ev(x) {
+                        Ok(v) => v,
+                        Err(Stop::Err) if self.cont_rows => return Ok(()),
+                        Err(e) => return Err(e),
+                    };
                     self.events.insert("bits_row");
                     for n in (0..*k).rev() {
                         vals.push(EV::Num((v >> n) & 1));
@@ -843,6 +854,12 @@ pub fn run(p: &Program, signals: &[Sig], env: &mut dyn Env, fuel: Fuel) -> RefRu
 /// `cont`: carry on after an error item whose driver call was made (what a caller sees who
 /// does not stop at the first error item).
 pub fn run_opts(p: &Program, signals: &[Sig], env: &mut dyn Env, fuel: Fuel, cont: bool) -> RefRun {
+    run_opts2(p, signals, env, fuel, cont, false)
+}
+
+/// `cont_rows`: also carry on after a row whose entries could not be evaluated (the row is
+/// replaced by an error item). Errors in let / bounds / conditions still end the run.
+pub fn run_opts2(p: &Program, signals: &[Sig], env: &mut dyn Env, fuel: Fuel, cont: bool, cont_rows: bool) -> RefRun {
     let declares = p.declares();
     let bound = bind(&p.header, signals, &declares);
     let init_inputs: Vec<(String, V)> =
@@ -903,6 +920,7 @@ pub fn run_opts(p: &Program, signals: &[Sig], env: &mut dyn Env, fuel: Fuel, con
         draws: 0,
         depth: 0,
         cont,
+        cont_rows,
         bound_evals: vec![],
     };
     let r = it.exec(&p.body);
